@@ -1074,10 +1074,12 @@ pub fn generate(seed: u64, tier: Tier, p: &Profile) -> Scenario {
                     let probe = OutSpec { addr: ret_addr.clone(), coin: 65536, assets: assets.clone(), datum: rdatum.clone(), script_ref: rsref, min_coin: false, form: 0 };
                     let size = probe_output_size(&g.w, &probe);
                     if size > 0 {
-                        let want = (65535 / (160 + size)).saturating_sub(g.r.below(2));
+                        // floor or floor + 1: with the latter the real bound (coin written with 5 bytes) lies just
+                        // above 2^16 while the bound for a narrower coin lies just below
+                        let want = 65536 / (160 + size) + g.r.below(2);
                         if want >= 1 && want <= g.k.cpb {
                             g.k.cpb = want;
-                            coin = 65536 + g.r.below(2 * want + 2);
+                            coin = 65536 + g.r.below(want + 2);
                         }
                     }
                 }
